@@ -20,7 +20,8 @@ Followers with EQUAL join times may be numbered in either order by the real lead
 the real numbers of such a group are adopted when they are a rearrangement of the model's.
 
 Monitor (on the REAL observation), evaluated at checkpoints where the model state is quiescent
-(`quiescentB`) or where a whole period passed without any event while a live instance holds the lease:
+(`quiescentB`) or where a whole period passed without any event while a live instance holds the lease and no
+partition is in force:
 `C10.ha-one-leader`, `C10.ha-admitted`, `C10.ha-dropped`, `C10.ha-total`, `C10.ha-distinct`; everywhere:
 `C10.ha-range`. -/
 namespace GoDcp.Driver
@@ -70,30 +71,6 @@ def haTok? (h : HaHdr) (t : String) : Option HaTok :=
 def haIsBody : Action → Bool
   | .hb _ | .hbFollow _ | .hbPing _ | .hbRemove _ | .mon _ => true
   | _ => false
-
-/-- a checkpoint: the model state, and whether the period before it had no event -/
-structure HaCp where
-  st : State
-  quiet : Bool
-
-structure HaRun where
-  st : State
-  quiet : Bool := true
-  cps : List HaCp := []
-  panicked : Bool := false
-
-def haExec (h : HaHdr) (toks : List String) : Option HaRun :=
-  toks.foldlM (init := ({ st := init h.n } : HaRun)) fun r t => do
-    match ← haTok? h t with
-    | .check => some { r with cps := r.cps ++ [{ st := r.st, quiet := r.quiet }], quiet := true }
-    | .skip => some { r with quiet := false }
-    | .act a =>
-      let s' := step r.st a
-      -- a callback that panics takes the process down: the real harness (one process per scenario) is gone
-      let died := match a with
-        | .observe i => (r.st.insts i).alive && !(s'.insts i).alive
-        | _ => false
-      some { r with st := s', quiet := r.quiet && haIsBody a, panicked := r.panicked || died }
 
 def insertNat (x : Nat) : List Nat → List Nat
   | [] => [x]
@@ -159,6 +136,59 @@ def haModelCp (s : State) (real : List (Nat × Option HaField)) : List (Nat × O
 
 def haInfo? (s : String) : Option (Nat × Nat) := slashNat? ((s.splitOn "!").headD "")
 
+/-- a checkpoint: the model state, whether the period before it had no event, the model's fields (after the
+    adoption of tie orders) and the parsed real fields -/
+structure HaCp where
+  st : State
+  quiet : Bool
+  fields : List (Nat × Option HaField)
+  real : List (Nat × Option HaField)
+
+structure HaRun where
+  st : State
+  quiet : Bool := true
+  cps : List HaCp := []
+  panicked : Bool := false
+
+def insSvcBy (key : Svc → Nat) (x : Svc) : List Svc → List Svc
+  | [] => [x]
+  | y :: r => if key x < key y then x :: y :: r else y :: insSvcBy key x r
+
+/-- the tie order the real leader was seen to use becomes the model's: the adopted numbers are written into the
+    model state (a follower that is cut off later keeps exactly that number), and the leader's map is iterated in
+    the order of the numbers from now on (`sortJT` is stable) -/
+def haAdopt (s : State) (m : List (Nat × Option HaField)) : State :=
+  let changed := m.filterMap fun (i, f) => match f with
+    | some f => (match haInfo? f.info with
+      | some p => if (s.insts i).info == some p then none else some (i, p)
+      | none => none)
+    | none => none
+  if changed.isEmpty then s
+  else
+    let s1 := changed.foldl (fun st (i, p) => st.upd i fun x => { x with info := some p }) s
+    match haLeaderOf s1 with
+    | none => s1
+    | some L =>
+      let key := fun (v : Svc) => match (s1.insts v.name).info with | some p => p.1 | none => 0
+      s1.upd L fun x => { x with services := x.services.foldr (insSvcBy key) [] }
+
+def haExec (h : HaHdr) (realCps : List String) (toks : List String) : Option HaRun :=
+  toks.foldlM (init := ({ st := init h.n } : HaRun)) fun r t => do
+    match ← haTok? h t with
+    | .check =>
+      let rf := haParseCp (realCps.getD r.cps.length "")
+      let m := haModelCp r.st rf
+      let st := haAdopt r.st m
+      some { r with st, cps := r.cps ++ [{ st, quiet := r.quiet, fields := m, real := rf }], quiet := true }
+    | .skip => some { r with quiet := false }
+    | .act a =>
+      let s' := step r.st a
+      -- a callback that panics takes the process down: the real harness (one process per scenario) is gone
+      let died := match a with
+        | .observe i => (r.st.insts i).alive && !(s'.insts i).alive
+        | _ => false
+      some { r with st := s', quiet := r.quiet && haIsBody a, panicked := r.panicked || died }
+
 /-- the clauses of C10 on one real checkpoint; `jt i` = join time of the current incarnation of `i`,
     `live` = the instances the script has running -/
 def haClauses (live : List Nat) (jt : Nat → Int) (real : List (Nat × Option HaField)) : String :=
@@ -197,20 +227,18 @@ def haEvaluate (c : HaCp) : Bool :=
   | none => false
   | some L =>
     quiescentB c.st L ||
-      (c.quiet && (c.st.insts L).alive && (c.st.insts L).el == El.leading && c.st.holder == some (L, (c.st.insts L).jt))
+      (c.quiet && c.st.blocked.isEmpty && (c.st.insts L).alive && (c.st.insts L).el == El.leading && c.st.holder == some (L, (c.st.insts L).jt))
 
 def hHaRun (args : List String) (real : Option String) : Option Out := do
   let hdr :: toks := args | none
   let h ← haHeader? hdr
-  let r ← haExec h toks
-  if r.panicked then
-    return { model := "panic", verdict := match real with | none => "-" | some _ => "ok" }
   let realCps : List String := match real with
     | some x => x.splitOn " | "
     | none => []
-  let cells := r.cps.zipIdx.map fun (c, k) =>
-    let rf := haParseCp (realCps.getD k "")
-    (c, k, rf, haModelCp c.st rf)
+  let r ← haExec h realCps toks
+  if r.panicked then
+    return { model := "panic", verdict := match real with | none => "-" | some _ => "ok" }
+  let cells := r.cps.zipIdx.map fun (c, k) => (c, k, c.real, c.fields)
   let model := " | ".intercalate (cells.map fun (_, _, _, m) => haShowCp m)
   let v := match real with
     | none => "-"
